@@ -6,6 +6,9 @@ import itertools
 import random
 
 VARS = ["i", "j", "n", "m"]
+# scalar members of two different structures whose '_'-joined names coincide (pa%x_y / pa_x%y -> pa_x_y), and one
+# that does not clash; written as variables whose name is the Fortran text of the access
+MEMBERS = ["pa%x_y", "pa_x%y", "pa%z"]
 
 
 def txt(e):
@@ -151,6 +154,15 @@ def gen_pairs(tier, seed):
                 pairs.append({"template": "frac_offset", "params": {"rule": f"m+{k}/{c}"},
                               "e1": ("+", V("m"), ("/", b, N(c))),
                               "e2": ("+", V("m"), ("/", ("+", b, N(k)), N(c)))})
+    # distinct structure members must stay distinct symbols
+    for x, y in itertools.permutations(MEMBERS, 2):
+        for nm, wrap in [("bare", lambda t: t), ("plus_i", lambda t: ("+", t, V("i"))),
+                         ("times2", lambda t: ("*", N(2), t)), ("index", lambda t: ("arr", "a", t)),
+                         ("mixed", lambda t: ("-", ("+", t, V("n")), V("j")))]:
+            pairs.append({"template": "members", "params": {"rule": nm}, "e1": wrap(V(x)), "e2": wrap(V(y))})
+    for x in MEMBERS:
+        pairs.append({"template": "members", "params": {"rule": "same"}, "e1": ("+", V(x), V("i")),
+                      "e2": ("+", V("i"), V(x))})
     for _ in range(nrand):
         d = rnd.choice(depth_list)
         pairs.append({"template": "random", "params": {"rule": "random"},
